@@ -497,6 +497,29 @@ def r11_11(ctx) -> None:
               "{**original_value, **parameters, 'kty': key_type}", construct="BaseKey dict view from a JWK")
 
 
+def r11_12(ctx) -> None:
+    """export / import options reach the function that acts on them: `password`, `encoding` and `parameters` are handed on at every
+    call between functions that both take them (a dropped password writes the private key unencrypted)"""
+    eng = ctx.eng
+    n = 0
+    for pn in ("password", "encoding", "parameters"):
+        for fn in eng.prog.all_functions():
+            if pn not in fn.params:
+                continue
+            for s in eng.cg.calls_in(fn):
+                if not isinstance(s.node, ast.Call):
+                    continue
+                for c in s.callees:
+                    if pn not in c.params or c is fn:
+                        continue
+                    n += 1
+                    a = eng.cg.arg_for_param(s, c, pn)
+                    ok = a is not None and norm(a) == pn
+                    ctx.check(ok, "R11.12", fn, s.node, f"{fn.short} -> {c.short} :: {pn}", f"{fn.short} does not pass its `{pn}` argument on to {c.short} "
+                              f"({'argument omitted' if a is None else 'passes ' + norm(a)})", f"{pn}={pn}", construct=f"{pn} forwarding {fn.short} -> {c.short}")
+    ctx.count("R11.12", n, 15, "option forwarding call sites")
+
+
 def r11_8(ctx) -> None:
     eng = ctx.eng
     bk = eng.prog.cls("rfc7517.models:BaseKey")
@@ -531,5 +554,6 @@ def run(ctx) -> None:
     ctx.guard(r11_9)
     ctx.guard(r11_10)
     ctx.guard(r11_11)
+    ctx.guard(r11_12)
     ctx.assume("pyca serialisation (PEM / DER / numbers) is faithful and validates points and RSA parameters")
     ctx.note("undecided remainder: equality of key material across PEM / DER / JWK for every key value")
